@@ -63,12 +63,13 @@ PROPS = {
     "C03": {
         "title": "The reader decodes any conformant peer stream, however fragmented or read",
         "level": "exploration",
-        "rule": "streams are generated by the independent encoder wsref (1-6 messages, 0-8 fragments incl. empty ones, 7/16/64-bit lengths at the thresholds, per-frame mask keys incl. 00000000/ffffffff/payload-equal, ping/pong at any frame boundary, optional close; compressed messages produced by independent deflate producers: compress/flate at every level with sync flushes, hand-written stored blocks, hand-written fixed-Huffman blocks with matches, BFINAL form) and read by generated read programs (ReadMessage, NextReader+sized reads incl. 0 and >= bufio size, bufio/ReadAll wrappers, ReadJSON, JoinMessages, abandonment) under generated transport chunkings; oracle = the encoded message list (reference model) and the control frames in wire order. Non-trivial = a message with >=2 frames, or a control frame between fragments, or a compressed message, or an abandoned message, or a chunked transport.",
+        "rule": "streams are generated by the independent encoder wsref (1-6 messages, 0-8 fragments incl. empty ones, 7/16/64-bit lengths at the thresholds, per-frame mask keys incl. 00000000/ffffffff/payload-equal, ping/pong at any frame boundary, optional close; compressed messages produced by independent deflate producers: compress/flate at every level with sync flushes, hand-written stored blocks, hand-written fixed-Huffman blocks with matches, BFINAL form) and read by generated read programs (ReadMessage, NextReader+sized reads incl. 0 and >= bufio size, bufio/ReadAll wrappers, ReadJSON, JoinMessages, abandonment) under generated transport chunkings; oracle = the encoded message list (reference model) and the control frames in wire order. Non-trivial = a message with >=2 frames, or a control frame between fragments, or a compressed message, or an abandoned message, or a chunked transport. part mask-carry-sweep: exhaustive enumeration (113652 cells) of {reader role} x message length 0..40 x first-fragment length 0..N x application read size {1,2,3,4,5,7,8,9,16,17,64} x transport chunk {as-is,1,3} x {ping between the fragments or not}, every cell judged by the same oracle.",
         "assumptions": TRUST + ["mask keys and deflaters are sampled (special keys and four producer families), not all 2^32 keys"],
         "level_text": "Bounded random exploration of conformant streams x read programs x chunkings against a reference model of what the stream encodes; the encoder and the deflate producers are independent of the library.",
         "level_note": "Reference encoder/deflaters in harness/wsref, self-tested on RFC byte vectors; ReadJSON is judged differentially against encoding/json on the true payload.",
         "technique": "property-based testing (rapid): independent encoder as generator, reference-model oracle, shrinking",
-        "legs": [leg("^TestC03$", 4000, 40000, qshards=8)],
+        "legs": [leg("^TestC03$", 4000, 40000, qshards=8), leg("^TestC03Sweep$", 1, 1, qshards=8, tshards=16)],
+        "sweep_note": "the driver treats legs whose test name ends in Sweep$ or Cells$ as enumerations",
     },
     "C04": {
         "title": "Framing violations are rejected fail-stop and never reach the application",
